@@ -13,6 +13,15 @@ BUILT = {
  'C04': dict(cat='exploration', tech='postcondition monitors interposed on orthogonalize / orthogonalize_left / orthogonalize_right (all calls, every pivot enumerated): Gram matrices, dense or probe-based tensor identity, byte snapshots for the in-place contract',
    text='For every generated tensor every pivot and both stabilisation settings are executed and judged: orthonormal cores around the pivot, tensor preserved (times 2^p), pivot norm, rank cuts, no aliasing, moderate magnitudes, ValueError for out-of-range pivots, in-place contract of the single-step variants.',
    note='Trusted: longdouble contraction / unbounded-exponent probes as reference; tolerance 50 d eps prod||G_k||_F.', ref='§4 C04'),
+ 'C05': dict(cat='exploration', tech='boundary trace (logged objective batches, per-sweep callback, tensor copies, info, cache) checked offline; differential run with and without cache',
+   text='Each TT-cross run on an exact-rank target is recorded at its boundary and judged: exactness once a full sweep ran at ranks >= rho, bitwise cache transparency with counter conservation m_cached + m_cache = m_plain, cache contents = evaluated pairs, info r / e_vld / e recomputed from the returned tensor and the previous sweep.',
+   note='Trusted: dense table objective (batch-independent values); conditioning threshold 1e-5 for "almost all"; exactness tolerance 1e-8 max|T|.', ref='§4 C05'),
+ 'C06': dict(cat='fault_enumeration', tech='complete enumeration of interruption points (every budget, every None-returning call, every callback stop, every stop-argument pattern, thresholds around the trajectory) with an offline checker over the recorded event log (prefix rule against a fault-free reference run)',
+   text='Per configuration the whole interruption space is enumerated and every run is checked: index domain, budget, info counters against the objective log, prefix rule, exactly one consistent stop reason, no evaluation after a stop, well-formed finite result in every interrupted run, ValueError before any evaluation for missing criteria.',
+   note='Assumes nothing about internals: the reference run supplies the batch sequence; line probes on the early-return blocks are reported as coverage only.', ref='§4 C06'),
+ 'C08': dict(cat='exploration', tech='postcondition monitors interposed on maxvol / maxvol_rect / _maxvol (all calls incl. those from TT-cross) plus a sys.monitoring line probe counting row swaps',
+   text='Every execution is judged: distinct in-range row numbers of the promised count, A = B A[I], B[I] = identity, max|B| <= e when the swap count stayed below k (independent coefficients by a linear solve), row norms <= e when the rectangular variant stopped early, ValueError for non-tall input and inconsistent dr_min/dr_max.',
+   note='Tolerance 100 eps cond(A[I]) max(1,|B|) |A[I]|; inputs are tall matrices of full column rank (cond <= 1e8) incl. duplicate and zero rows.', ref='§4 C08'),
  'C01': dict(cat='exploration', tech='shadow-value runtime monitor: random expression programs evaluated by the real functions, every node and observer compared with a longdouble / exact-integer dense shadow',
    text='Oracle on executions of the real add/sub/mul/outer/copy and all evaluation routines over generated programs and TT families; held on the K programs listed in the evidence, never "verified".',
    note='Trusted: NumPy longdouble arithmetic as dense reference; tolerance 10(sum ranks+d)2^-52*absbound; exact Python ints for integer cores.', ref='§4 C01'),
